@@ -187,20 +187,20 @@ def gen_cases(ck):
     def priors(L):
         return [bytes(L), b"\xff" * L, bytes([0xAA, 0x55] * L)[:L], bytes(rng.bytes(L))]
 
-    def field_case(L, en, sign, lo, hi, prior, vals, bit=False, struct_entries=False, flags=1):
+    def field_case(L, en, sign, lo, hi, prior, vals, bit=False, struct_entries=False, flags=1, access="RW"):
         # declared numbering
         if en:
             lsb, msb = 8 * L - 1 - lo, 8 * L - 1 - hi
         else:
             lsb, msb = lo, hi
-        node = dict(kind="masked", sign=sign, lsb=lsb, msb=msb, bit=bit)
+        node = dict(kind="masked", sign=sign, lsb=lsb, msb=msb, bit=bit, access=access)
         ops = [("mn", 0), ("mx", 0), ("v", 0)]
         for v in vals:
             ops += [("s", 0, v), ("v", 0)]
         base = 0x200
         image = b"\x5a" * 4 + prior + b"\xa5" * 4
         c = reg_case(base + 4, L, en, base, image, [node], ops, flags=flags, struct_entries=struct_entries,
-                     cachable="NoCache" if flags & 1 else "WriteThrough")
+                     cachable="NoCache" if flags & 1 else "WriteThrough", struct_access=access)
         if not flags & 1:
             c.kind = "reg-cached"
         cases.append(c)
@@ -231,6 +231,16 @@ def gen_cases(ck):
                 for sign in (0, 1):
                     field_case(L, en, sign, lo, hi, bytes(rng.bytes(L)), field_values(hi - lo + 1, sign, rng, 3)[:12],
                                struct_entries=True)
+    # a declared AccessMode (RO / WO) restricts what is_readable / is_writable report (C18), not what a write does: a
+    # write-only field is still a read-modify-write of the register AS HELD BY THE DEVICE (sibling bits survive)
+    for L in (1, 2, 4, 8):
+        for en in (0, 1):
+            for am in ("WO", "RO"):
+                for lo, hi in ((0, 0), (3, 5), (8 * L - 4, 8 * L - 1), (1, 8 * L - 2)):
+                    for st in (False, True):
+                        for flags in (1, 0):
+                            field_case(L, en, 0, lo, hi, b"\xff" * L if lo else bytes(rng.bytes(L)),
+                                       field_values(hi - lo + 1, 0, rng, 3)[:6], struct_entries=st, flags=flags, access=am)
     # sibling fields sharing one register: interleaved writes (uncached, and cached with mutual invalidators)
     for _ in range(60 if quick else 1500):
         L = rng.choice([1, 2, 4, 8])
@@ -241,7 +251,8 @@ def gen_cases(ck):
         nodes = []
         for lo, hi in fields:
             lsb, msb = (nb - 1 - lo, nb - 1 - hi) if en else (lo, hi)
-            nodes.append(dict(kind="masked", sign=rng.below(2), lsb=lsb, msb=msb))
+            nodes.append(dict(kind="masked", sign=rng.below(2), lsb=lsb, msb=msb,
+                              access=rng.choice(["RW", "RW", "RW", "WO", "WO", "RO"])))
         nodes.append(dict(kind="int", sign=0))
         ops = []
         for _i in range(rng.range(4, 12)):
